@@ -325,3 +325,11 @@ package exif2
 //@ func (*buffer).MarshalZerologArray
 //@   props C15 C01
 //@   requires b.len <= 84
+
+// resetPosition drops the entries before the current one: the current entry becomes entry 0.
+//@ func (*buffer).resetPosition
+//@   props C01 C02 C03
+//@   requires b.pos <= b.len && b.len <= 84
+//@   modifies b.tag, b.len, b.pos
+//@   ensures b.pos == 0 && b.len == old(b.len) - old(b.pos)
+//@   ensures old(b.pos) < old(b.len) ==> b.tag[0] == old(b.tag[b.pos])
